@@ -78,7 +78,7 @@ Fixpoint assoc {B} (k : name) (l : list (name * B)) : option B :=
   | (k', v) :: r => if str_eqb k k' then Some v else assoc k r
   end.
 
-Inductive exn := ENoMatch | EAttribute | EKey | EIndex | EType.
+Inductive exn := ENoMatch | EAttribute | EKey | EIndex | EType | ERuntime.
 
 Inductive form := FAttr | FMethod | FIndex.
 
@@ -86,7 +86,7 @@ Inductive outcome := Denied (e : exn) | Reach (m : name).
 
 Definition exn_eqb (a b : exn) : bool :=
   match a, b with
-  | ENoMatch, ENoMatch | EAttribute, EAttribute | EKey, EKey | EIndex, EIndex | EType, EType => true
+  | ENoMatch, ENoMatch | EAttribute, EAttribute | EKey, EKey | EIndex, EIndex | EType, EType | ERuntime, ERuntime => true
   | _, _ => false
   end.
 
